@@ -135,3 +135,11 @@ def duration_parts(out, lang):
         parts.append([n, unit, cls])
         s = s[end:].lstrip(" ")
     return parts
+
+
+def time_printed(out):
+    """'HH:MM:SS NAME' -> [wall second of day, name] or 'unparsed'"""
+    m = re.match(r"^(\d\d):(\d\d):(\d\d) (\S+)$", out.strip())
+    if not m:
+        return "unparsed"
+    return [int(m.group(1)) * 3600 + int(m.group(2)) * 60 + int(m.group(3)), m.group(4)]
